@@ -68,6 +68,11 @@ def run(chk, tier):
     for fn, u in (("hwloc_internal_memattrs_dup", "memattrs.c"), ("hwloc_internal_cpukinds_dup", "cpukinds.c"), ("hwloc__duplicate_object", "topology.c")):
         m += dup.memcpy_pointer_fields(chk, P, fn, u)
     chk.floor("R-NOALIAS", "pointer stores on the copy examined", m, 30)
+    chk.rule("R-TRUNCFAIL", "a duplication loop that fails at element i leaves the copy's count at the number of elements it built (i or i+1): explored with the source count seeded, the loop counter exact and every callee / "
+             "allocation forked; otherwise the destructor run by the failure path releases entries of the bulk-copied array that still hold the source's pointers")
+    import truncfail
+    ntf = truncfail.run(chk, P, ["cpukinds.c", "memattrs.c", "distances.c", "topology.c"])
+    chk.floor("R-TRUNCFAIL", "count-copying duplication loops with a failing exit", ntf, 1)
     chk.rule("R-SHALLOWELEM", "an array of records copied in bulk by memcpy gets every pointer field of every element re-assigned: must-fact dataflow scoped to one iteration of the loop that walks the "
              "elements (through `E = &D[i]` or `D[i].f`); the facts must hold on every back edge, so an iteration that ends early (`continue`) with a field as copied is reported")
     nse = 0
@@ -105,7 +110,8 @@ def run(chk, tier):
     import consumed as _consumed
     ndg = _consumed.dangling(chk, P, ["topology.c", "distances.c", "memattrs.c", "cpukinds.c"])
     chk.floor("R-DANGLE", "stores of a local into an owning field", ndg, 3)
-    chk.decided += ['a failed step never leaves an owning field pointing at a block the function has already released (no dangling pointer for the destructor to release again)',
+    chk.decided += ['a failed hwloc_topology_dup() does not release memory of the original: the counts of the partly built CPU-kind and memory-attribute arrays are truncated on every failing path',
+                    'a failed step never leaves an owning field pointing at a block the function has already released (no dangling pointer for the destructor to release again)',
                     'typed block copies measure the object they copy (sizeof consistency)',
                     'per-slot loops over fixed-size array fields cover every slot',
                     'no local allocation of the duplication code is dropped on a path to a return',
